@@ -394,6 +394,7 @@ type vsWorker struct {
 	assignedAtStep int
 	lastReturn     time.Time
 	everReturned   bool
+	rerequests     int // ghost: times the worker asked again while it was supposed to run its current task
 }
 
 const (
@@ -514,7 +515,7 @@ func (r *vsRig) addClient(instanceName, hash string, priority int32, keys ...sch
 }
 
 func (r *vsRig) addWorker(prefix string, p *remoteexecution.Platform, sizeClass uint32, name string) *vsWorker {
-	w := &vsWorker{idx: len(r.workers), id: map[string]string{"host": name}, prefix: prefix, platform: p, sizeClass: sizeClass, assignedAtStep: -1}
+	w := &vsWorker{idx: len(r.workers), id: map[string]string{"host": name, "thread": "0"}, prefix: prefix, platform: p, sizeClass: sizeClass, assignedAtStep: -1}
 	r.workers = append(r.workers, w)
 	return w
 }
@@ -721,9 +722,9 @@ func (r *vsRig) sync(w *vsWorker, kind int) {
 	ctx := w.ctx
 	rt.Go(func() {
 		var prevTask *task
-		prevRetry := 0
+		prevRetry := w.rerequests // (counted by the harness, not read from the scheduler)
 		if ws := r.workerState(w); ws != nil && ws.currentTask != nil {
-			prevTask, prevRetry = ws.currentTask, ws.currentTask.retryCount
+			prevTask = ws.currentTask
 		}
 		// ghost: which task does this completion belong to?
 		if completed != nil {
@@ -735,8 +736,11 @@ func (r *vsRig) sync(w *vsWorker, kind int) {
 		}
 		if kind == vsSyncIdle || kind == vsSyncIdlePreferIdle || kind == vsSyncWrongDigest {
 			// the worker lost or never had the task it was told to run
-			if ws := r.workerState(w); ws != nil && ws.currentTask != nil && ws.currentTask.retryCount >= r.cfg.WorkerTaskRetryCount {
-				r.sawRetryLimit = true
+			if ws := r.workerState(w); ws != nil && ws.currentTask != nil {
+				if w.rerequests >= r.cfg.WorkerTaskRetryCount {
+					r.sawRetryLimit = true
+				}
+				w.rerequests++
 			}
 		}
 		resp, err := r.bq.Synchronize(ctx, req)
@@ -804,6 +808,9 @@ func (r *vsRig) syncReturned(w *vsWorker, kind int, resp *remoteworker.Synchroni
 			r.checkRouting(w, t, e)
 		}
 		w.desired = proto.Clone(e.ActionDigest).(*remoteexecution.Digest)
+		if w.desiredPtr != e || kind == vsSyncCompletedOK || kind == vsSyncCompletedFailed || kind == vsSyncCompletedTimedOut {
+			w.rerequests = 0
+		}
 		if w.desiredPtr != e {
 			rt.Cover("sync:new-task")
 		} else {
